@@ -28,6 +28,23 @@ class C08(Prop):
                    'known finding tbtEmptyDetails)',
                    'Content objects are reduced to text (decoded) / non-text (rendered content type) / traceback']
 
+    manifest = {
+        'text': 'Theorems for all adapter graphs (any depth / fan-out) of ExtendedToOriginalDecorator, TestResultDecorator, Tagger, '
+                'ThreadsafeForwardingResult, MultiTestResult over 2.6 / 2.7 / Twisted / extended / testtools.TestResult / TestByTestResult '
+                'leaves and all call histories: every leaf receives the startTest / outcome / stopTest events of the history exactly once and '
+                'in order, degraded only by the fixed table (skip, xfail -> success on 2.6; unexpected success -> failure; details -> '
+                '_StringException / reason); the degradation never makes a failing outcome passing; _details_to_str (modelled exactly over '
+                'code points) contains every non-empty text detail; TestByTestResult calls back once per stopTest with test, status word, '
+                'details, times and tags.  Proved outside the known finding tbtEmptyDetails (TestByTestResult raises on a failing outcome with '
+                'an empty details dict).  The hand-written model is tied to the code by a differential check (random + bounded-exhaustive '
+                'graphs x histories) and by the extracted status-word table.',
+        'note': 'trusted: Lean kernel, the model TTV/Model/Result.lean, the harness (own recording results of the old flavours); partial: finding '
+                'tbtEmptyDetails is excluded from holds_model_partial / C08_tbt_partial; exceptions escaping a result, getattr / TypeError protocol '
+                'negotiation and str.strip are modelled, not verified',
+        'technique': 'Lean 4 proofs by induction on the adapter tree (state type computed from the shape) and on the call history; executable '
+                     'spec shared with a differential correspondence check',
+    }
+
     def extract_tables(self, repo):
         """status word that each TestByTestResult.add* assigns to self._status (tie 1)"""
         src = open(os.path.join(repo, 'testtools', 'testresult', 'real.py')).read()
